@@ -145,8 +145,16 @@ class ProgGen:
         return self.r.choice(CLASSES)
 
     def inlist(self):
-        n = self.r.randint(1, 3)
-        items = ", ".join(self.listable() for _ in range(n))
+        n = self.r.randint(1, 4)
+        if self.r.random() < 0.3:
+            # items that are prefixes of each other, in any order: which one wins depends on the ORDER of the list only
+            w = self.word(1, 1)
+            fam = [w, w + self.r.choice(self.alpha), w + self.r.choice(self.alpha) + self.r.choice(self.alpha), self.word(1, 2)]
+            self.r.shuffle(fam)
+            items = ", ".join(q(x) for x in fam[:max(n, 3)])
+            self.features.add("in-prefix-family")
+        else:
+            items = ", ".join(self.listable() for _ in range(n))
         if self.allow_notin and self.r.random() < 0.4:
             self.features.add("not-in")
             return "not in " + items
